@@ -18,57 +18,51 @@ def isText : Reply → Bool
   | .text _ => true
   | _ => false
 
-def replySuffix (suf : String) : Cfg → Reply → Bool := fun _ r =>
-  match r with
-  | .text s => suf.toList.isSuffixOf s.toList
-  | _ => false
-
-/-- `out = strings.TrimSuffix(out, " "); strings.HasSuffix(out, suffix)` -/
-def promptSuffix (suf : String) : Cfg → Reply → Bool := fun _ r =>
-  match r with
-  | .text s => suf.toList.isSuffixOf (trimSuffixL s.toList [' '])
-  | _ => false
-
-def replyContains (sub : String) : Cfg → Reply → Bool := fun _ r =>
-  match r with
-  | .text s => contains s sub
-  | _ => false
-
 def missingBanner : String := "Missing banner at NetSPoC managed device"
 def wrongName : String := "Wrong device name"
 
+/-- `out := <reply>` / `out = <reply>` -/
+def outDecl : Prog := .assign .out true false .reply
+def outSet : Prog := .assign .out false false .reply
+
 /-! ## cisco (ASA, IOS) -/
+
+/-- `strings.HasSuffix(out, suffix)` after `out = strings.TrimSuffix(out, " ")` -/
+def sufOut (suf : String) : Pred := .hasSuffix (.v .out) suf
 
 /-- body of the closure `waitPrompt(enter, suffix)` -/
 def wpBody (o : Out) : Prog :=
-  .send "IssueCmd" "enter" o .abort ;; .collect "bannerLines += out" ;; .note "ret" "HasSuffix(…)"
+  .note "assign" "stdPrompt := `\\n\\r?[^#> ]+[>#] ?$`" ;;
+  .send "IssueCmd" "enter `(?i)password:|` + stdPrompt" o .abort ;; outSet ;;
+  .collect "bannerLines += out" ;;
+  .assign .out false false (.trimSuffix (.v .out) " ") ;;
+  .note "ret" "strings.HasSuffix(out, suffix)"
 
+/-- `checkBanner(lines, cfg)`: the parameter `lines` is bound to `bannerLines` -/
 def ciscoCheckBanner : Prog :=
-  .record "rx != nil && rx.FindStringIndex(lines) == nil"
+  .assign .lines true true .bannerLines ;;
+  .record (.and .bannerSet (.bannerNoMatch (.v .lines)))
     "s.errUnmanaged = []error{errors.New(\"Missing banner at NetSPoC managed device\")}" .set
-    (fun cfg _ banner => match cfg.banner with
-      | some m => if m banner then [] else [missingBanner]
-      | none => [])
+    (fun _ _ => [missingBanner])
 
 /-- `LoginEnable` up to (not including) the call of `checkBanner`. -/
 def ciscoLoginPre : Prog :=
-  .send "WaitLogin" "" .wait .abort ;;
-  .ite "strings.HasSuffix(out, \"?\")" (replySuffix "?")
-    (.send "IssueCmd" "\"yes\"" (.lit "yes") .abort) .nop ;;
+  .send "WaitLogin" "\"(?i)password:|\\(yes/no.*\\)\\?\"" .wait .abort ;; outDecl ;;
+  .ite (.hasSuffix (.v .out) "?")
+    (.send "IssueCmd" "\"yes\" \"(?i)password:\"" (.lit "yes") .abort ;; outSet) .nop ;;
   .collect "bannerLines += out" ;;
   .defn "waitPrompt" (wpBody (.lit "<enter>")) ;;
   .call "waitPrompt" (wpBody .pass) ;;
-  .ite "waitPrompt(pass, \">\")" (promptSuffix ">")
+  .ite (.val "waitPrompt(pass, \">\")" (sufOut ">"))
     (.call "waitPrompt" (wpBody (.lit "enable")) ;;
-     .ite "!waitPrompt(\"enable\", \"#\")" (fun c r => !promptSuffix "#" c r)
+     .ite (.not (.val "waitPrompt(\"enable\", \"#\")" (sufOut "#")))
        (.call "waitPrompt" (wpBody .pass) ;;
-        .check "!waitPrompt(pass, \"#\")" "abort" "Authentication for enable mode failed"
-          (fun c r _ => if promptSuffix "#" c r then none
-                        else some (.abort "Authentication for enable mode failed")))
+        .check (.not (.val "waitPrompt(pass, \"#\")" (sufOut "#"))) "abort"
+          "Authentication for enable mode failed" (.abort "Authentication for enable mode failed"))
        .nop)
-    (.check "!strings.HasSuffix(out, \"#\")" "abort" "Authentication failed"
-      (fun c r _ => if promptSuffix "#" c r then none else some (.abort "Authentication failed"))) ;;
-  .send "IssueCmd" "\"\"" (.lit "") .abort ;;
+    (.check (.not (.hasSuffix (.v .out) "#")) "abort" "Authentication failed"
+      (.abort "Authentication failed")) ;;
+  .send "IssueCmd" "\"\" \"#[ ]?\"" (.lit "") .abort ;; outSet ;;
   .note "call" "SetStdPrompt"
 
 def ciscoLoginEnable : Prog := ciscoLoginPre ;; .call "checkBanner" ciscoCheckBanner
@@ -76,39 +70,36 @@ def ciscoLoginEnable : Prog := ciscoLoginPre ;; .call "checkBanner" ciscoCheckBa
 def ciscoGetChanges : Prog :=
   .note "call" "alignVRFs" ;;
   .call "checkInterfaces"
-    (.check "" "ret" "err" (fun c r _ => (c.changesErr r).map Fail.fail)) ;;
+    (.check (.opaque "" fun c r _ => (c.changesErr r).isSome) "ret" "err" (.fail "GetChanges: interface check")) ;;
   errRet "err" ;;
   .note "call" "ignoreCryptoGDOI" ;; .note "call" "diffConfig" ;; .note "ret" "nil"
 
 def parseConfig : Prog :=
-  .check "" "ret" "err" (fun c r _ =>
-    match r with
-    | .text s => if c.parses s then none else some (.fail "While reading device: parse error")
-    | _ => some (.fail "While reading device: no text"))
+  .check (.opaque "" fun c r _ => match r with | .text s => !c.parses s | _ => true) "ret" "err"
+    (.fail "While reading device: parse error")
 
 def sshConn : Prog := .send "Spawn" "" .connect .fail
 
 def asaSetTerminal : Prog :=
-  .send "GetCmdOutput" "\"sh pager\"" (.lit "sh pager") .abort ;;
-  .ite "!strings.Contains(out, \"no pager\")" (fun c r => !replyContains "no pager" c r)
+  .send "GetCmdOutput" "\"sh pager\"" (.lit "sh pager") .abort ;; outDecl ;;
+  .ite (.not (.contains (.v .out) "no pager"))
     (.send "SendCmd" "\"terminal pager 0\"" (.lit "terminal pager 0") .abort) .nop ;;
-  .send "GetCmdOutput" "\"sh term\"" (.lit "sh term") .abort ;;
-  .ite "!strings.Contains(out, \"511\")" (fun c r => !replyContains "511" c r)
+  .send "GetCmdOutput" "\"sh term\"" (.lit "sh term") .abort ;; outSet ;;
+  .ite (.not (.contains (.v .out) "511"))
     (.send "SendCmd" "\"configure terminal\"" (.lit "configure terminal") .abort ;;
      .send "SendCmd" "\"terminal width 511\"" (.lit "terminal width 511") .abort ;;
      .send "SendCmd" "\"end\"" (.lit "end") .abort) .nop
 
 def asaLogVersion : Prog := .send "GetCmdOutput" "\"sh ver\"" (.lit "sh ver") .abort
 
-def nameCheck (f : String → List Char) : Cfg → Reply → String → Option Fail := fun c r _ =>
-  match r with
-  | .text s => if f s == c.name.toList then none else some (.abort wrongName)
-  | _ => some (.abort wrongName)
+/-- `if name != out { errlog.Abort("Wrong device name …") }` -/
+def nameCheck : Prog :=
+  .check (.ne .name (.v .out)) "abort" "Wrong device name: %q, expected: %q" (.abort wrongName)
 
 def asaCheckDeviceName : Prog :=
-  .send "GetCmdOutput" "\"show hostname\"" (.lit "show hostname") .abort ;;
-  .check "name != out" "abort" "Wrong device name: %q, expected: %q"
-    (nameCheck fun s => trimSuffixL s.toList ['\n'])
+  .send "GetCmdOutput" "\"show hostname\"" (.lit "show hostname") .abort ;; outDecl ;;
+  .assign .out false false (.trimSuffix (.v .out) "\n") ;;
+  nameCheck
 
 def ciscoPreLogin : Prog :=
   .note "call" "GetUserPass" ;; errRet "nil, err" ;;
@@ -119,7 +110,7 @@ def asaPostLogin : Prog :=
   .call "logVersion" asaLogVersion ;;
   .call "checkDeviceName" asaCheckDeviceName ;;
   .note "call" "SetLogFH" ;;
-  .send "GetCmdOutput" "\"write term\"" (.lit "write term") .abort ;;
+  .send "GetCmdOutput" "\"write term\"" (.lit "write term") .abort ;; outDecl ;;
   .call "ParseConfig" parseConfig ;;
   .note "ret" "config, err"
 
@@ -132,16 +123,17 @@ def iosSetTerminal : Prog :=
 def iosLogVersion : Prog := .send "GetCmdOutput" "\"sh ver\"" (.lit "sh ver") .abort
 
 def iosCheckDeviceName : Prog :=
-  .send "IssueCmd" "\"\"" (.lit "") .abort ;;
-  .check "name != out" "abort" "Wrong device name: %q, expected: %q"
-    (nameCheck fun s => trimSuffixL (trimSpaceL s.toList) ['#'])
+  .send "IssueCmd" "\"\" \"#[ ]?\"" (.lit "") .abort ;;
+  .assign .out true false (.trimSpace .reply) ;;
+  .assign .out false false (.trimSuffix (.v .out) "#") ;;
+  nameCheck
 
 def iosPostLogin : Prog :=
   .call "setTerminal" iosSetTerminal ;;
   .call "logVersion" iosLogVersion ;;
   .call "checkDeviceName" iosCheckDeviceName ;;
   .note "call" "SetLogFH" ;;
-  .send "GetCmdOutput" "\"sh run\"" (.lit "sh run") .abort ;;
+  .send "GetCmdOutput" "\"sh run\"" (.lit "sh run") .abort ;; outDecl ;;
   .call "ParseConfig" parseConfig ;;
   .note "ret" "config, err"
 
@@ -150,14 +142,15 @@ def iosLoadDevice : Prog := ciscoPreLogin ;; .call "LoginEnable" ciscoLoginEnabl
 /-! ## Linux -/
 
 def linuxLoginEnable : Prog :=
-  .send "WaitLogin" "" .wait .abort ;;
-  .ite "strings.HasSuffix(out, \"?\")" (replySuffix "?")
-    (.send "IssueCmd" "\"yes\"" (.lit "yes") .abort) .nop ;;
-  .ite "strings.HasSuffix(out, \"word:\")" (replySuffix "word:")
-    (.send "IssueCmd" "pass" .pass .abort) .nop ;;
-  .check "strings.HasSuffix(out, \"word:\")" "abort" "Authentication failed"
-    (fun c r _ => if replySuffix "word:" c r then some (.abort "Authentication failed") else none) ;;
-  .send "IssueCmd" "\"PS1=router#\"" (.lit "PS1=router#") .abort ;;
+  .note "assign" "stdPrompt := `\\r\\n\\S*\\s?[%>$#]\\s?(?:\\x27\\S*)?`" ;;
+  .note "assign" "passPrompt := stdPrompt + `|(?i)password:`" ;;
+  .send "WaitLogin" "passPrompt + `|\\(yes/no.*\\)\\?`" .wait .abort ;; outDecl ;;
+  .ite (.hasSuffix (.v .out) "?")
+    (.send "IssueCmd" "\"yes\" passPrompt" (.lit "yes") .abort ;; outSet) .nop ;;
+  .ite (.hasSuffix (.v .out) "word:")
+    (.send "IssueCmd" "pass passPrompt" .pass .abort ;; outSet) .nop ;;
+  .check (.hasSuffix (.v .out) "word:") "abort" "Authentication failed" (.abort "Authentication failed") ;;
+  .send "IssueCmd" "\"PS1=router#\" stdPrompt" (.lit "PS1=router#") .abort ;;
   .note "call" "SetStdPrompt"
 
 def linuxLogVersion : Prog :=
@@ -165,22 +158,20 @@ def linuxLogVersion : Prog :=
   .send "GetCmdOutput" "\"uname -m\"" (.lit "uname -m") .abort
 
 def linuxCheckDeviceName : Prog :=
-  .send "GetCmdOutput" "\"hostname -s\"" (.lit "hostname -s") .abort ;;
-  .check "name != out" "abort" "Wrong device name: %q, expected: %q"
-    (nameCheck fun s => trimSuffixL s.toList ['\n'])
+  .send "GetCmdOutput" "\"hostname -s\"" (.lit "hostname -s") .abort ;; outDecl ;;
+  .assign .out false false (.trimSuffix (.v .out) "\n") ;;
+  nameCheck
 
 def linuxGrep (cfg : Cfg) : Prog :=
   .send "GetCmdOutput" "\"grep '\" + re + \"' /etc/issue\"" (.litArg "grep '" cfg.bannerSrc) .abort ;;
-  .record "len(lines) == 0"
+  .assign .lines true false .reply ;;
+  .record (.isEmpty (.v .lines))
     "s.errUnmanaged = []error{errors.New(\"Missing banner at NetSPoC managed device\")}" .set
-    (fun _ r _ => match r with
-      | .text s => if s == "" then [missingBanner] else []
-      | _ => [])
+    (fun _ _ => [missingBanner])
 
 /-- `checkBanner` as it is now (with the nil guard of the `fix:` commit). -/
 def linuxCheckBanner (cfg : Cfg) : Prog :=
-  .early "cfg.CheckBanner == nil" "" (fun c _ => c.banner.isNone)
-    (.note "call" "String" ;; linuxGrep cfg)
+  .early .bannerUnset "" (.note "call" "String" ;; linuxGrep cfg)
 
 /-- `checkBanner` of the unchanged tree: `cfg.CheckBanner.String()` on a nil regexp. -/
 def linuxCheckBannerUnfixed (cfg : Cfg) : Prog :=
@@ -188,11 +179,13 @@ def linuxCheckBannerUnfixed (cfg : Cfg) : Prog :=
   .note "call" "String" ;; linuxGrep cfg
 
 def linuxGetIPTables : Prog :=
-  .send "GetCmdOutput" "\"iptables-save\"" (.lit "iptables-save") .abort ;;
+  .send "GetCmdOutput" "\"iptables-save\"" (.lit "iptables-save") .abort ;; outDecl ;;
   .note "call" "parseIPTables" ;; .note "ret" "parseIPTables(…)"
 
 def linuxGetRoutes : Prog :=
-  .send "GetCmdOutput" "\"ip route show\"" (.lit "ip route show") .abort ;;
+  .send "GetCmdOutput" "\"ip route show\"" (.lit "ip route show") .abort ;; outDecl ;;
+  .note "assign" "lines := strings.Split(out, \"\\n\")" ;;
+  .note "if" "s > 0 && lines[s-1] == \"\"" ;; .block (.note "assign" "lines = lines[:s-1]") ;;
   .note "call" "parseRoutes" ;; .note "ret" "parseRoutes(…)"
 
 def linuxPreBanner : Prog :=
@@ -226,7 +219,7 @@ def panGetAPIKey : Prog :=
   .send "httpGet" "uri" panKeygen .fail ;;
   .note "if" "err != nil" ;; .block (.note "call" "Error" ;; .note "ret" "\"\", Errorf(…)") ;;
   .call "parseAPIKey"
-    (.check "" "ret" "err" (fun _ r _ => if isText r then none else some (.fail "API key: no key"))) ;;
+    (.check (.opaque "" fun _ r _ => !isText r) "ret" "err" (.fail "API key: no key")) ;;
   .note "ret" "parseAPIKey(…)"
 
 /-- `checkHA` returns false on any error; true iff HA is off or this is the active member. -/
@@ -255,31 +248,32 @@ def panLoginBody (n : String) : Prog :=
   .note "call" "httpdevice.GetHTTPClient" ;;
   .call "getAPIKey" panGetAPIKey ;; errRet "err" ;;
   .call "checkHA" panCheckHA ;;
-  .check "!s.checkHA(logLogin)" "ret" "Errorf(…)"
-    (fun _ r _ => if haOK r then none else some (.fail "not in active state")) ;;
+  .check (.opaque "!s.checkHA(logLogin)" fun _ r _ => !haOK r) "ret" "Errorf(…)"
+    (.fail "not in active state") ;;
   .setName n ;;
   .note "ret" "nil"
 
 /-- `httpdevice.TryReachableHTTPLogin`: the names of the name list in turn; an error of the
 login closure is a warning and the next name is tried. -/
 def tryNames (body : String → Prog) : List String → Prog
-  | [] => .check "" "ret" "Errorf(…)" (fun _ _ _ => some (.fail "Devices unreachable"))
+  | [] => .check (.opaque "" fun _ _ _ => true) "ret" "Errorf(…)" (.fail "Devices unreachable")
   | n :: ns => .attempt (body n) (tryNames body ns)
 
 def panCheckDeviceName : Prog :=
   .note "call" "getDevName" ;;
-  .check "name != expected" "ret" "Errorf(…)" (fun _ r dn =>
-    match r with
-    | .conf h _ => if h == dn then none else some (.fail wrongName)
-    | _ => some (.fail wrongName)) ;;
+  .note "assign" "name := c.getDevName()" ;;
+  .check (.opaque "name != expected" fun _ r dn =>
+      match r with
+      | .conf h _ => h != dn
+      | _ => true) "ret" "Errorf(…)" (.fail wrongName) ;;
   .note "ret" "nil"
 
 /-- `LoadDevice` from the request of the candidate configuration on. -/
 def panLoadSuffix : Prog :=
   .send "httpPrefixGetLog" "uri" panConf .fail ;; errRet "nil, err" ;;
   .call "parseResponseConfig"
-    (.check "" "ret" "err" (fun _ r _ =>
-      match r with | .conf _ _ => none | _ => some (.fail "While reading device: bad config"))) ;;
+    (.check (.opaque "" fun _ r _ => match r with | .conf _ _ => false | _ => true) "ret" "err"
+      (.fail "While reading device: bad config")) ;;
   .note "if" "err != nil" ;; .block (.note "ret" "config, Errorf(…)") ;;
   .call "checkDeviceName" panCheckDeviceName ;;
   .note "ret" "config, err"
@@ -291,27 +285,31 @@ def panLoadDevice (cfg : Cfg) : Prog :=
   errRet "nil, err" ;;
   panLoadSuffix
 
+/-- `strings.Contains(strings.ToLower(v.DisplayName), "netspoc")` -/
+def panMarked (displayName : String) : Bool := infixL (lowerL displayName.toList) "netspoc".toList
+
 def panUnmarked (cfg : Cfg) (vs : List (String × String)) : List String :=
-  (vs.filter fun v => cfg.targetVsys.contains v.1 && !cfg.isMarked v.2).map
+  (vs.filter fun v => cfg.targetVsys.contains v.1 && !panMarked v.2).map
     fun v => "Missing NetSPoC in name of " ++ v.1
 
+def panUnmarkedOf (cfg : Cfg) : Reply → List String
+  | .conf _ vs => panUnmarked cfg vs
+  | _ => []
+
+/-- `checkUnmanaged(v)` for every vsys pair, in one step -/
 def panCheckUnmanaged : Prog :=
-  .record "!strings.Contains(name, \"netspoc\")"
+  .note "assign" "name := strings.ToLower(v.DisplayName)" ;;
+  .record (.opaque "!strings.Contains(name, \"netspoc\")" fun cfg r _ => !(panUnmarkedOf cfg r).isEmpty)
     "s.errUnmanaged = append(s.errUnmanaged, fmt.Errorf(\"Missing NetSPoC in name of %s\", v.Name))"
-    .append
-    (fun cfg r _ => match r with
-      | .conf _ vs => panUnmarked cfg vs
-      | _ => [])
+    .append panUnmarkedOf
 
 /-- `GetChanges`: for every vsys pair `checkUnmanaged`; a vsys only Netspoc knows is an error. -/
 def panProcessVsysPairs : Prog :=
   .call "checkUnmanaged" panCheckUnmanaged ;;
-  .check "v1 == nil" "ret" "Errorf(…)" (fun cfg r _ =>
-    match r with
-    | .conf _ vs =>
-      if cfg.targetVsys.all fun t => vs.any fun v => v.1 == t then none
-      else some (.fail "Unknown name in VSYS of device configuration")
-    | _ => none)
+  .check (.opaque "v1 == nil" fun cfg r _ =>
+      match r with
+      | .conf _ vs => !(cfg.targetVsys.all fun t => vs.any fun v => v.1 == t)
+      | _ => false) "ret" "Errorf(…)" (.fail "Unknown name in VSYS of device configuration")
 
 def panGetChanges : Prog :=
   .call "processVsysPairs" panProcessVsysPairs ;;
@@ -334,29 +332,58 @@ def nsxLoginBody (_n : String) : Prog :=
   .note "ret" "nil"
 
 def nsxPolicies : Out := .lit "GET /policy/api/v1/infra/domains/default/gateway-policies"
-def nsxServices : Out := .litArg "GET /policy/api/v1/infra/services?cursor=" ""
-def nsxGroups : Out := .litArg "GET /policy/api/v1/infra/domains/default/groups?cursor=" ""
+def nsxPolicyPre : String := "GET /policy/api/v1/infra/domains/default/gateway-policies/"
+def nsxServicesPre : String := "GET /policy/api/v1/infra/services?cursor="
+def nsxGroupsPre : String := "GET /policy/api/v1/infra/domains/default/groups?cursor="
 
-def nsxGetRawJSON (o : Out) : Prog := .send "sendRequest" "\"GET\" path + \"?cursor=\" + cursor" o .fail
+def cursorOf : Reply → String
+  | .page _ c => c
+  | _ => ""
+
+/-- `getRawJSON(path)`: `for { GET path?cursor=<cursor>; …; cursor = results.Cursor; if cursor == "" { break } }` -/
+def nsxGetRawJSON (pre : String) : Prog :=
+  .setCur (fun _ => "") ;;
+  .loop ""
+    (.sendCur "sendRequest" "\"GET\" path + \"?cursor=\" + cursor" pre .fail ;;
+     .note "assign" "out, err := <reply>" ;;
+     errRet "nil, err" ;;
+     .check (.opaque "err != nil" fun _ r _ => match r with | .page _ _ => false | _ => true)
+       "ret" "nil, Errorf(…)" (.fail "while parsing") ;;
+     .note "for" "range results.Results" ;;
+     .block (errRet "nil, err") ;;
+     .setCur cursorOf)
+    .cursorSet ;;
+  .note "ret" "data, nil"
+
+def isNetspocId (id : String) : Bool := "Netspoc".toList.isPrefixOf id.toList
 
 def nsxLoadDevice (cfg : Cfg) : Prog :=
   .call "httpdevice.TryReachableHTTPLogin" (tryNames nsxLoginBody cfg.names) ;;
-  .send "sendRequest" "\"GET\" path" nsxPolicies .fail ;;
-  .call "getRawJSON" (nsxGetRawJSON nsxServices) ;;
-  .call "getRawJSON" (nsxGetRawJSON nsxGroups) ;;
-  .call "ParseConfig" .nop
+  .defn "" (nsxLoginBody "<name>") ;;
+  errRet "nil, err" ;;
+  .send "sendRequest" "\"GET\" path" nsxPolicies .fail ;; errRet "nil, err" ;;
+  .check (.opaque "err != nil" fun _ r _ => match r with | .page _ _ => false | _ => true)
+    "ret" "nil, Errorf(…)" (.fail "while parsing") ;;
+  .forIds "range resultStruct.Results" isNetspocId
+    (.sendCur "sendRequest" "\"GET\" path + \"/\" + result.Id" nsxPolicyPre .fail ;; errRet "nil, err") ;;
+  .call "getRawJSON" (nsxGetRawJSON nsxServicesPre) ;; errRet "nil, err" ;;
+  .call "getRawJSON" (nsxGetRawJSON nsxGroupsPre) ;; errRet "nil, err" ;;
+  .note "assign" "out, err := json.Marshal(rawConf)" ;; errRet "nil, err" ;;
+  .call "ParseConfig" .nop ;; errRet "nil, Errorf(…)" ;;
+  .note "ret" "config, nil"
 
 def nsxGetChanges : Prog := .note "call" "diffConfig" ;; .note "ret" "nil"
 
 /-! ## ApplyCommands (skeleton not compared here: C09 / C15) -/
 
+def okOut : Pred := .not (.contains (.v .out) "[OK]")
+
 def asaApply : Prog :=
   .send "cmd" "" (.lit "configure terminal") .abort ;;
   .forPlan .abort .nop ;;
   .send "cmd" "" (.lit "end") .abort ;;
-  .send "GetCmdOutput" "" (.lit "write memory") .abort ;;
-  .check "!strings.Contains(out, \"[OK]\")" "abort" "write memory failed"
-    (fun c r _ => if replyContains "[OK]" c r then none else some (.abort "Command 'write memory' failed"))
+  .send "GetCmdOutput" "" (.lit "write memory") .abort ;; outDecl ;;
+  .check okOut "abort" "write memory failed" (.abort "Command 'write memory' failed")
 
 def iosApply : Prog :=
   .send "SendCmd" "" (.lit "configure terminal") .abort ;;
@@ -366,8 +393,8 @@ def iosApply : Prog :=
   .send "SendCmd" "" (.lit "ip subnet-zero") .abort ;;
   .send "SendCmd" "" (.lit "ip classless") .abort ;;
   .send "SendCmd" "" (.lit "end") .abort ;;
-  .send "IssueCmd" "" (.lit "reload in 2") .abort ;;
-  .ite "strings.Contains(out, \"[yes/no]\")" (replyContains "[yes/no]")
+  .send "IssueCmd" "" (.lit "reload in 2") .abort ;; outDecl ;;
+  .ite (.contains (.v .out) "[yes/no]")
     (.send "IssueCmd" "" (.lit "n") .abort) .nop ;;
   .send "SendCmd" "" (.lit "") .abort ;;
   .send "SendCmd" "" (.lit "configure terminal") .abort ;;
@@ -375,27 +402,30 @@ def iosApply : Prog :=
   .send "SendCmd" "" (.lit "end") .abort ;;
   .send "IssueCmd" "" (.lit "reload cancel") .abort ;;
   .send "SendCmd" "" (.lit "") .abort ;;
-  .send "IssueCmd" "" (.lit "write memory") .abort ;;
-  .check "!strings.Contains(out, \"[OK]\")" "abort" "write mem: unexpected result"
-    (fun c r _ => if replyContains "[OK]" c r then none else some (.abort "write mem: unexpected result"))
+  .send "IssueCmd" "" (.lit "write memory") .abort ;; outDecl ;;
+  .check okOut "abort" "write mem: unexpected result" (.abort "write mem: unexpected result")
 
 def linuxApply : Prog :=
   .forPlan .abort
-    (.send "GetCmdOutput" "" (.lit "echo $?") .abort ;;
-     .check "s.conn.GetCmdOutput(\"echo $?\") != \"0\\n\"" "abort" "failed (exit status)"
-       (fun _ r _ => match r with
-         | .text s => if s == "0\n" then none else some (.abort "failed (exit status)")
-         | _ => some (.abort "failed (exit status)")))
+    (.send "GetCmdOutput" "" (.lit "echo $?") .abort ;; outDecl ;;
+     .check (.ne (.v .out) (.lit "0\n")) "abort" "failed (exit status)" (.abort "failed (exit status)"))
 
+def isTextEq (r : Reply) (t : String) : Bool :=
+  match r with
+  | .text s => s == t
+  | _ => false
+
+/-- `commit()`: enqueue the partial commit; if a job was enqueued poll it
+(`for { show jobs; switch result { case "PEND": continue; case "OK": return nil; default: error } }`). -/
 def panApply (cfg : Cfg) : Prog :=
   .forPlan .fail .nop ;;
   .send "doCmd" "" (.litArg "type=commit&action=partial&cmd=" cfg.user) .fail ;;
-  .ite "job enqueued" (fun _ r => match r with | .text s => s != "" | _ => false)
-    (.send "doCmd" "" (.litArg "type=op&cmd=<show><jobs><id>" "job") .fail ;;
-     .check "s.Result" "ret" "Errorf(…)" (fun _ r _ =>
-       match r with
-       | .text s => if s == "OK" then none else some (.fail "Commit failed: Unexpected job result")
-       | _ => some (.fail "Commit failed")))
+  .ite (.opaque "job enqueued" fun _ r _ => match r with | .text s => s != "" | _ => false)
+    (.loop "poll"
+       (.send "doCmd" "" (.litArg "type=op&cmd=<show><jobs><id>" "job") .fail ;;
+        .check (.opaque "unexpected job result" fun _ r _ => !(isTextEq r "PEND" || isTextEq r "OK"))
+          "ret" "Errorf(…)" (.fail "Commit failed: Unexpected job result"))
+       (.opaque "PEND" fun _ r _ => isTextEq r "PEND"))
     .nop
 
 def nsxApply : Prog := .forPlan .fail .nop
@@ -484,7 +514,7 @@ def approveOrCompareP (b : Backend) (cfg : Cfg) : Prog :=
   .note "closure" "" ;;
   .block
     (.note "call" "getRealDevice" ;;
-     .ite "isCompare" (fun c _ => c.isCompare)
+     .ite (.opaque "isCompare" fun c _ _ => c.isCompare)
        (.call "compare" (compareP b cfg)) (.call "approve" (approveP b cfg)) ;;
      .note "call" "CloseConnection" ;;
      .note "if" "err != nil" ;; .block (.note "abort" "%v") ;;
@@ -554,31 +584,6 @@ def tryReachableSkel : List Item := [
   (1, "ret", "nil"),
   (0, "ret", "Errorf(…)")]
 
-def nsxLoadSkel : List Item := [
-  (0, "call", "httpdevice.TryReachableHTTPLogin"),
-  (0, "closure", ""),
-  (1, "call", "httpdevice.GetHTTPClient"), (1, "if", "err != nil"), (2, "ret", "err"),
-  (1, "send", "PostForm uri"), (1, "if", "err != nil"), (2, "ret", "err"),
-  (1, "if", "resp.StatusCode != http.StatusOK"), (2, "ret", "Errorf(…)"),
-  (1, "ret", "nil"),
-  (0, "if", "err != nil"), (1, "ret", "nil, err"),
-  (0, "send", "sendRequest \"GET\" path"), (0, "if", "err != nil"), (1, "ret", "nil, err"),
-  (0, "if", "err != nil"), (1, "ret", "nil, Errorf(…)"),
-  (0, "for", "range resultStruct.Results"),
-  (1, "send", "sendRequest \"GET\" path + \"/\" + result.Id"), (1, "if", "err != nil"), (2, "ret", "nil, err"),
-  (0, "call", "getRawJSON"), (0, "if", "err != nil"), (1, "ret", "nil, err"),
-  (0, "call", "getRawJSON"), (0, "if", "err != nil"), (1, "ret", "nil, err"),
-  (0, "if", "err != nil"), (1, "ret", "nil, err"),
-  (0, "call", "ParseConfig"), (0, "if", "err != nil"), (1, "ret", "nil, Errorf(…)"),
-  (0, "ret", "config, nil")]
-
-def nsxGetRawJSONSkel : List Item := [
-  (0, "for", ""),
-  (1, "send", "sendRequest \"GET\" path + \"?cursor=\" + cursor"), (1, "if", "err != nil"), (2, "ret", "nil, err"),
-  (1, "if", "err != nil"), (2, "ret", "nil, Errorf(…)"),
-  (1, "for", "range results.Results"), (2, "if", "err != nil"), (3, "ret", "nil, err"),
-  (0, "ret", "data, nil")]
-
 def nsxSendRequestSkel : List Item := [
   (0, "if", "err != nil"), (1, "ret", "nil, err"),
   (0, "send", "Do req"), (0, "if", "err != nil"), (1, "ret", "nil, err"),
@@ -633,8 +638,8 @@ def modelSkeletons : List (String × List Item) :=
     ("panos.(*State).httpPrefixGetLog", panHttpPrefixGetLogSkel),
     ("panos.(*State).httpGet", panHttpGetSkel),
     ("panos.(*PanConfig).checkDeviceName", skel 0 panCheckDeviceName),
-    ("nsx.(*State).LoadDevice", nsxLoadSkel),
-    ("nsx.(*State).getRawJSON", nsxGetRawJSONSkel),
+    ("nsx.(*State).LoadDevice", skel 0 (nsxLoadDevice cfg)),
+    ("nsx.(*State).getRawJSON", skel 0 (nsxGetRawJSON "")),
     ("nsx.(*State).sendRequest", nsxSendRequestSkel),
     ("nsx.(*State).GetErrUnmanaged", getErrUnmanagedSkel .nsx),
     ("nsx.(*State).GetChanges", skel 0 nsxGetChanges),
@@ -685,7 +690,8 @@ def frontEndFacts : List (String × List Item) := [
       [(1, "case", q c.1), (2, "assign", "logFile += " ++ q c.2)]) ++
     [ (1, "case", "default"), (2, "ret", "1"),
       (0, "call", "device.SetLock"),
-      (0, "call", "device.ApproveOrCompare(isCompare, codeFile, cfg, logDir, logFile, false)") ])]
+      (0, "call", "device.ApproveOrCompare(isCompare, codeFile, cfg, logDir, logFile, false)"),
+      (0, "assign", "lines := strings.Split(string(data), \"\\n\")") ])]
 
 def isFrontEndItem (it : Item) : Bool :=
   it.2.1 == "assign" || it.2.1 == "switch" || it.2.1 == "case" || it.2.1 == "fallthrough" ||
